@@ -12,7 +12,7 @@ use serde_json::{json, Value};
 pub static ENGINE: Engine = Engine {
     prop: "C08",
     level: "exploration",
-    rule: "every string <= L chars over an 18-char lexical alphabet (incl. backslash, quote, digits 0 and 1, a non-ASCII letter) (lexer vs reference scanner); every token sequence <= N over the full token alphabet incl. every alias spelling (parser vs reference LL(1) parser: Err vs Ok(tree), trees compared structurally by variable name); every grammar sentence with <= K AST nodes and every sentence of the depth-2 family (every node kind in every child position, 2 300 trees) in three print styles plus EVERY one-token deletion/insertion/replacement of it. long inputs with every kind of token straddling every power-of-two offset 64..65536. distinct = distinct syntax trees accepted by both sides + distinct token lists produced by the lexer sweep",
+    rule: "every string <= L chars over an 18-char lexical alphabet (incl. backslash, quote, digits 0 and 1, a non-ASCII letter) (lexer vs reference scanner); every token sequence <= N over the full token alphabet incl. every alias spelling (parser vs reference LL(1) parser: Err vs Ok(tree), trees compared structurally by variable name); every grammar sentence with <= K AST nodes and every sentence of the depth-2 family (every node kind in every child position, 2 300 trees) in three print styles plus EVERY one-token deletion/insertion/replacement of it. long inputs with every kind of token straddling every power-of-two offset 64..65536. Ordering independence: every depth-2-family and full-alphabet (<= 3 nodes) sentence in word spelling parsed under an API ordering whose symbols are named after every word alias of the language. distinct = distinct syntax trees accepted by both sides + distinct token lists produced by the lexer sweep",
     assumptions: &[
         "the reference lexer/parser (harness/src/refl.rs, written from README and the property text) is the grammar",
         "numbers beyond usize::MAX may be rejected (never accepted with another value)",
@@ -301,6 +301,50 @@ fn mutate_sentence(ctx: &mut Ctx, a: &Ast, kinds: &[Tok]) {
     }
 }
 
+/// The tree of a text does not depend on the ordering handed to the parser: every sentence of
+/// the depth-2 family and every full-alphabet sentence <= 3 nodes, spelled with the WORD aliases
+/// (and, or, not, exists, mu, ...), parsed under an API ordering whose symbols are named after
+/// every word alias of the language (ids 1000..) followed by the formula's own names.
+fn keyword_ordering_sweep(ctx: &mut Ctx) {
+    let mut words: Vec<String> = vec![];
+    for t in kinds() {
+        for sp in refl::spellings(&t) {
+            if sp.chars().all(|c| c.is_ascii_alphabetic()) && !words.contains(&sp.to_string()) {
+                words.push(sp.to_string());
+            }
+        }
+    }
+    let mut asts: Vec<Ast> = enumerate::depth2_family();
+    let mut g = Gen::new(enumerate::full_alpha());
+    for n in 1..=3 {
+        g.stream(n, &mut |a| asts.push(a));
+    }
+    for (i, a) in asts.iter().enumerate() {
+        if !ctx.mine(i as u64) {
+            continue;
+        }
+        let text = refl::render(&refl::to_tokens(a, refl::MINIMAL), &mut |n| n - 1);
+        if refl::parse(&text).as_ref() != Ok(a) {
+            panic!("machinery: round trip failed for {text}");
+        }
+        let mut ordering: Vec<rsbdd::NamedSymbol> = words.iter().enumerate().map(|(k, w)| sym(w, 1000 + k)).collect();
+        ordering.extend(a.names().iter().enumerate().map(|(k, n)| sym(n, 5000 + 3 * k)));
+        let case = json!({"part": "keyword-ordering", "text": text});
+        ctx.begin_case(|| case.clone());
+        ctx.count("evaluations", 1);
+        ctx.count("sentences_under_keyword_named_ordering", 1);
+        match impl_parse_bytes(text.as_bytes(), Some(ordering)) {
+            ImplParse::Ok(p) => {
+                if conv(&p.bdd).as_ref() != Some(a) {
+                    ctx.violation(format!("parse under keyword-named ordering:{text}"), format!("under an ordering that contains symbols named like keywords the text parses to {:?}, the grammar says {:?}", conv(&p.bdd), a), case);
+                }
+            }
+            ImplParse::Err(e) => ctx.violation(format!("parse under keyword-named ordering:{text}"), format!("a sentence of the grammar is rejected when the ordering contains symbols named like keywords: {e}"), case),
+            ImplParse::Panic(m) => ctx.violation(format!("parse under keyword-named ordering:{text}"), format!("parser panicked: {m}"), case),
+        }
+    }
+}
+
 fn grammar_sweep(ctx: &mut Ctx) {
     let kinds = kinds();
     let red = reduced_kinds();
@@ -429,12 +473,22 @@ fn run(ctx: &mut Ctx) {
         seq_sweep(ctx, &lex_kinds, 4, "token_sequences_kinds");
     }
     grammar_sweep(ctx);
+    keyword_ordering_sweep(ctx);
 }
 
 fn replay(ctx: &mut Ctx, case: &Value) {
     let text = case["text"].as_str().unwrap_or("");
     match case["part"].as_str() {
         Some("lex") => check_lex(ctx, text),
+        Some("keyword-ordering") => {
+            let mut c2 = Ctx::new("C08", ctx.tier, ctx.seed, 0, 1);
+            keyword_ordering_sweep(&mut c2);
+            for v in c2.violations {
+                if v.replay == *case {
+                    ctx.violation(v.key, v.what, v.replay);
+                }
+            }
+        }
         _ => check_parse(ctx, text),
     }
 }
